@@ -248,7 +248,7 @@ class RScn:
         self.post = None
 
     def fmt_name(self):
-        return "packed" if self.fmt == "packed-self" else self.k.get("fmt_override", self.fmt)
+        return self.k.get("fmt_override", "packed" if self.fmt == "packed-self" else self.fmt)
 
     def describe(self):
         d = {k: (v.hex() if isinstance(v, bytes) else v) for k, v in self.__dict__.items() if k not in ("post",) and not callable(v)}
@@ -411,6 +411,9 @@ def build(s):
         for f in builtin:
             if builtin[f]:
                 builtin[f] = [PKI("Y", root_cn="Forged Root").root_pem()]
+    algs = s.algs
+    if algs is None and s.kind == "RS1":
+        algs = [-7, -8, -36, -37, -38, -39, -257, -258, -259, -65535]       # "RS1 when allowed"
     pol = dict(challenge=s.challenge, rp_id=s.rp_id, origin=s.exp_origin if s.exp_origin is not None else s.origin,
-               require_up=s.require_up, require_uv=s.require_uv, algs=s.algs, roots=roots, builtin=builtin, now=s.now)
+               require_up=s.require_up, require_uv=s.require_uv, algs=algs, roots=roots, builtin=builtin, now=s.now)
     return pol, reg
